@@ -21,9 +21,6 @@ theorem agg_empty_is_null (op : String) (vals : List Val) (hop : op ≠ "count")
   unfold agg
   unfold nonNull at h
   simp only [h]
-  split
-  · exact absurd rfl hop
-  · rfl
 
 /-- `count(col)` counts the non-null values (0 when there are none) -/
 theorem count_counts_non_null (vals : List Val) : agg "count" vals = .int (nonNull vals).length := by
@@ -72,7 +69,7 @@ theorem filter_kwarg (op : String) (conds vals : List Val) (hlen : conds.length 
       simp only [List.zip_cons_cons, List.map_cons, List.filter_cons]
       by_cases hc : (c == Val.bool true) = true
       · simp only [hc, ↓reduceIte, List.map_cons, List.filter_cons]
-        split <;> simp [ih vs hlen]
+        rw [ih vs hlen]
       · simp only [hc, Bool.false_eq_true, ↓reduceIte, Val.isNull, Bool.not_true]
         exact ih vs hlen
 
